@@ -1,10 +1,118 @@
 import Driver.Util
+import Hv.Conc.Summon
 
-/-! Placeholder: the line-protocol driver of domain C18 is not written yet. -/
+/-! Line-protocol driver for the summon wait-slot model (domain C18). Same ops and reply format
+    as `/verif/harness/c18.go`: `go T` performs the LTS actions of summoner `T` up to the place
+    where the harness stops the real goroutine next.  A reply carries
+    `#F:C18-slot-dropped-while-in-use` when the model state has two live instances. -/
 namespace Driver.C18
+open Hv.Summon
 
-def run (_args : List String) : IO UInt32 := do
-  IO.eprintln "drv: domain C18 has no driver yet"
-  return 2
+structure DSt where
+  cfg : Cfg
+  s : St := init
+  cancelled : Nat → Bool := fun _ => false
+
+def act (d : DSt) (a : Act) : DSt :=
+  match step d.cfg d.s a with
+  | some s' => { d with s := s' }
+  | none => d
+
+def threads : List Nat := [1, 2, 3, 4, 5, 6]
+
+def render (d : DSt) : String :=
+  let s := d.s
+  let cur := match s.slotMap with | some k => toString k | none => "-"
+  let slots := (List.range s.nextSlot).map fun k =>
+    let sl := s.slots k
+    s!"{k}:{if sl.owner.isSome then 1 else 0}:{sl.count}"
+  s!"live={s.live.length} mapped={if s.swampMap.isSome then 1 else 0} cur={cur} slots=[{" ".intercalate slots}]" ++
+    (if s.live.length > 1 then "\t#F:C18-slot-dropped-while-in-use" else "")
+
+/-- the waiter of slot `σ`, if any -/
+def waiterOf (d : DSt) (σ : Nat) : Option Nat :=
+  threads.find? fun t => (d.s.thr t).pc == .waiting && (d.s.thr t).slot == σ
+
+/-- `ready = false; Broadcast()` by `t`, then the woken waiter (if any) enters -/
+def unready (d : DSt) (t : Nat) : DSt × String :=
+  let σ := (d.s.thr t).slot
+  let w := waiterOf d σ
+  let d := act d (.leaveUnready t)
+  match w with
+  | some x => (act d (.enter x), s!" woke={x}")
+  | none => (d, "")
+
+def goThread (d : DSt) (t : Nat) : DSt × String :=
+  let x := d.s.thr t
+  match x.pc with
+  | .idle =>
+    let d := act d (.lookup t)
+    (d, s!"lookup slot={(d.s.thr t).slot}")
+  | .looked =>
+    let sl := d.s.slots x.slot
+    if sl.owner.isSome && (waiterOf d x.slot).isSome && !d.cancelled t then (d, "busy")
+    else if sl.owner.isSome && d.cancelled t then
+      -- its Broadcast wakes the slot's waiter, which counts itself again and waits again
+      let d := act d (.giveUp t)
+      let d := threads.foldl (fun d y =>
+        if (d.s.thr y).pc == .woken && (d.s.thr y).slot == x.slot then
+          (if d.cancelled y then act d (.giveUp y) else act d (.enter y))
+        else d) d
+      (d, "gaveup")
+    else
+      let d := act d (.enter t)
+      (d, if (d.s.thr t).pc == .inCS then "inside" else "waiting")
+  | .inCS =>
+    if d.cancelled t then
+      let (d, w) := unready (act d (.bodyCtxDone t)) t
+      (d, "cancelled" ++ w)
+    else
+      let d := act d (.bodyGet t)
+      if (d.s.thr t).pc == .creating then (d, "creating")
+      else
+        let (d, w) := unready d t
+        (d, "found" ++ w)
+  | .creating =>
+    let d := act (act d (.bodyCreate t)) (.bodyStore t)
+    let (d, w) := unready d t
+    (d, "created" ++ w)
+  | .left1 =>
+    -- after `giveUp` in the reference-counted variant the thread is at `left1` too, but the
+    -- harness has no stop there (the current code returns at once)
+    (act d (.leaveDec t), "dec")
+  | .left2 =>
+    let zero := (d.s.slots x.slot).count == 0
+    (act d (.leaveDel t), if zero then "deleted" else "kept")
+  | _ => (d, "skip")
+
+def stepLine (d : DSt) (line : String) : DSt × String :=
+  match words line with
+  | "case" :: _ => ({ cfg := d.cfg }, line)
+  | ["go", ts] =>
+    match ts.toNat? with
+    | none => (d, "bad-op")
+    | some t =>
+      if t < 1 || t > 6 then (d, "bad-op") else
+      let (d', msg) := goThread d t
+      if msg == "skip" || msg == "busy" then (d', msg) else (d', s!"go {t} {msg} {render d'}")
+  | ["cancel", ts] =>
+    match ts.toNat? with
+    | none => (d, "skip")
+    | some t =>
+      let pc := (d.s.thr t).pc
+      if pc == .idle || pc == .done || d.cancelled t then (d, "skip") else
+      let d := { d with cancelled := fun x => if x = t then true else d.cancelled x }
+      (d, s!"cancel {t} {render d}")
+  | ["close"] =>
+    if d.s.swampMap.isSome then
+      let d := act d .closeCallback
+      (d, s!"close ok {render d}")
+    else (d, s!"close none {render d}")
+  | _ => (d, "bad-op")
+
+def run (args : List String) : IO UInt32 := do
+  let kv := parseArgs args
+  lineLoop stepLine { cfg := { refCounted := arg kv "refCounted" == "yes" } }
+  return 0
 
 end Driver.C18
